@@ -1,5 +1,5 @@
 SPECIFICATION Spec
-CONSTANTS G = 4  MaxV = 5  XLeft = 2  YDown = 0  UseMin = FALSE  MaxHits = 99  Margin = "range"  BothOrders = TRUE
+CONSTANTS G = 4  MaxV = 5  XLeft = 2  YDown = 0  UseMin = FALSE  MaxHits = 99  Algo = "edges"  BothOrders = TRUE
 CHECK_DEADLOCK FALSE
 INVARIANT NoError
 INVARIANT DesignHolds
